@@ -95,7 +95,11 @@ def run(ctx, P):
     for pre, chunks in ((2, [1] * (n - 2)), (0, [n - 1, 1]), (n, [])):
         lab = f"[preload={pre},chunks={'+'.join(map(str, chunks))}]"
         src = clone(cs)
-        hx = Hexital("hx", src[:pre], [as_form(s, P["form"] if j == 0 else FORMS[j % 3], **e) for j, (s, e) in enumerate(members)], **level)
+        handed = [as_form(s, P["form"] if j == 0 else FORMS[j % 3], **e) for j, (s, e) in enumerate(members)]
+        hx = Hexital("hx", src[:pre], handed, **level)
+        for h in handed:
+            if isinstance(h, dict):
+                caller_reuses(h)
         hx.calculate()
         pos = pre
         for c in chunks:
